@@ -2,7 +2,7 @@ import Hive.Model.ReactiveInst
 /-!
 # The transitions of the reactive protocol model, one constructor each
 
-`Tr o sh t sh' t'` lists the sixteen ways `(sh', t') ∈ step o sh t` can hold; the invariant proofs
+`Tr o sh t sh' t'` lists the nineteen ways `(sh', t') ∈ step o sh t` can hold; the invariant proofs
 do their case analysis on it instead of unfolding `step` again and again.
 -/
 namespace Hive.Reactive
@@ -11,7 +11,9 @@ open Hive.Conc
 variable {S N : Type}
 
 inductive Tr (o : Obj S N) : Sh S N → Th o.WOp N → Sh S N → Th o.WOp N → Prop
-  | startWrite (sh : Sh S N) (w : o.WOp) (rest : List (Op o.WOp)) : sh.ulock = false →
+  | earlyReturn (sh : Sh S N) (w : o.WOp) (rest : List (Op o.WOp)) : o.early w = true →
+      Tr o sh { pc := .idle, script := .write w :: rest } sh { pc := .idle, script := rest }
+  | startWrite (sh : Sh S N) (w : o.WOp) (rest : List (Op o.WOp)) : o.early w = false → sh.ulock = false →
       Tr o sh { pc := .idle, script := .write w :: rest } { sh with ulock := true } { pc := .wU w, script := rest }
   | startSub (sh : Sh S N) (flag : Bool) (rest : List (Op o.WOp)) : sh.vlock = false →
       Tr o sh { pc := .idle, script := .sub flag :: rest } { sh with vlock := true } { pc := .sV flag, script := rest }
@@ -78,11 +80,16 @@ theorem tr_of_step (o : Obj S N) {sh sh' : Sh S N} {t t' : Th o.WOp N}
     | cons op rest =>
       cases op with
       | write w =>
-        by_cases hu : sh.ulock = true
-        · simp [step, hu] at h
-        · simp [step, hu] at h
-          obtain ⟨rfl, rfl⟩ := h
-          exact Tr.startWrite sh w rest (by simpa using hu)
+        by_cases hearly : o.early w = true
+        · simp [step, hearly] at h
+          obtain ⟨h1, h2⟩ := h
+          rw [h1, h2]
+          exact Tr.earlyReturn sh w rest hearly
+        · by_cases hu : sh.ulock = true
+          · simp [step, hu, hearly] at h
+          · simp [step, hu, hearly] at h
+            obtain ⟨rfl, rfl⟩ := h
+            exact Tr.startWrite sh w rest (by simpa using hearly) (by simpa using hu)
       | sub flag =>
         by_cases hv : sh.vlock = true
         · simp [step, hv] at h
